@@ -107,6 +107,10 @@ class Scenario:
                         elif kind == "CursorAware":
                             obj = CursorAwareWindow(out_stream=self.out, in_stream=self.in_stream, hide_cursor=bool(st["hide"]),
                                                     keep_last_line=bool(st["keep"]))
+                        elif kind == "Back":
+                            # the Termmode that the enclosing Cbreak's __enter__ handed back ("with Cbreak(s) as normal:
+                            # with normal: ..."): back to the mode before the Cbreak, for a while
+                            obj = self.back if getattr(self, "back", None) is not None else Termmode(self.in_stream, given_attrs)
                         elif kind == "Cbreak":
                             obj = Cbreak(self.in_stream)
                         elif kind == "Nonblocking":
@@ -128,7 +132,9 @@ class Scenario:
                             exited[kind] = obj        # constructed now, entered by a later step (reuse=1)
                             return
                         n0 = len(self.out.replies)
-                        obj.__enter__()
+                        entered = obj.__enter__()
+                        if kind == "Cbreak":
+                            self.back = entered
                         stack.append((kind, obj))
                         rec["reply"] = self.out.replies[-1] if len(self.out.replies) > n0 else [0, 0]
                     elif st["k"] == "op":
@@ -376,6 +382,13 @@ class C12(TraceCheck):
                 for kind in ("Cbreak", "Nonblocking", "Termmode"):
                     for end in (X, R):
                         yield [init, E(kind), end]
+                # back to the mode before the Cbreak through the Termmode it returned, and a cbreak context inside that
+                for end in (X, R):
+                    yield [init, E("Cbreak"), E("Back"), end, X]
+                    yield [init, E("Cbreak"), E("Back"), E("Cbreak"), end, X, X]
+                    yield [init, E("Cbreak"), E("Back"), E("CursorAware", hide=1), OP("render"), end, X, X]
+                    yield [init, E("Cbreak"), E("Back"), E("Input", nostart=1), OP("request_key"), end, X, X]
+                    yield [init, E("Cbreak"), E("Cbreak"), E("Back"), E("Cbreak"), end, X, X, X]
                 for tm in (1, 2):
                     for end in (X, R):
                         yield [init, E("Termmode", tm=tm), end]
